@@ -493,3 +493,12 @@ def describe(tier):
         assumptions=["per-window and mean-curve peaks are taken from HvsrCurve (judged by C08)",
                      "the early return when |mean fn - mean-curve peak| or a standard deviation is exactly zero "
                      "follows the original implementation (the relative change is undefined there)"])
+
+
+_describe_base = describe
+
+
+def describe(tier):     # noqa: F811 - the base description plus what later rounds added to the space
+    d = _describe_base(tier)
+    d["rule"] = d["rule"] + " " + 'The menu also holds range updates whose peak options scipy refuses (they raise).'
+    return d
